@@ -138,12 +138,15 @@ class Parent:
         self.lua_fn = self.ctx.lua.eval("function(f) return function() f() end end")
         self.depth = 0
         self.maxdepth = 0
+        self.on_enter = None
         orig = core.call_lua_sandbox
         me = self
 
         def wrapped(ctx, invoke_args, expander, parent, timeout):
             me.depth += 1
             me.maxdepth = max(me.maxdepth, me.depth)
+            if me.depth == 1 and me.on_enter is not None:
+                me.on_enter()
             try:
                 return orig(ctx, invoke_args, expander, parent, timeout)
             finally:
@@ -219,6 +222,14 @@ def child_run(par, prog, limit, followups, jump, wfd):
             rep["rearms_while_active"] += 1
         return real_sethook(*a)
     clock.G.debug.sethook = sethook
+
+    def on_enter():
+        # Lua must never run unguarded while an invocation is active: until the product arms its own hook (which
+        # replaces this one) the counting monitor hook is in place, so code that runs before / without any arm
+        # (e.g. module loading) is observed too
+        if not clock.armed:
+            real_sethook(par.lua_fn(monitor_tick), "", 100000)
+    par.on_enter = on_enter
 
     # wall-clock watchdog of the child itself: inconclusive, never a violation
     signal.signal(signal.SIGALRM, lambda *_: (rep.__setitem__("watchdog", True), finish(9)))
